@@ -209,7 +209,15 @@ def case_strategy(tier):
             if draw(st.integers(0, 5)) == 0:
                 term = '\n'
             classes.add('non-default-delimiters')
-        isa = x12ref.make_isa(ele=ele, sub=sub, term=term, icvn=icvn, rep=rep)
+        # ISA fields may contain the component (and repetition) separator: the ISA is never component-split
+        isa_alpha = [c for c in 'ABCXYZ0189 ' + sub + (rep if icvn == '00501' else '') + '.-' if c not in (ele, term)]
+        if draw(st.integers(0, 2)) == 0:
+            sender = draw(st.text(isa_alpha, min_size=15, max_size=15))
+            receiver = draw(st.text(isa_alpha, min_size=15, max_size=15))
+            classes.add('separator-inside-isa') if (sub in sender + receiver) else None
+        else:
+            sender, receiver = 'SENDER', 'RECEIVER'
+        isa = x12ref.make_isa(ele=ele, sub=sub, term=term, icvn=icvn, rep=rep, sender=sender, receiver=receiver)
         forbidden = {term, ele, sub, '\r'}
         alphabet = [chr(c) for c in range(32, 127) if chr(c) not in forbidden]
         if '\n' not in forbidden:
